@@ -135,7 +135,18 @@ class Runner(object):
 # spec -> code: replay of every transition of the reduced model
 
 def replay_model(ctx, events):
-    r = ctx.tlc('Viewport_MC', ctx.pick('Viewport_MC_emit.cfg', 'Viewport_MC_emit_big.cfg'), workers=1, tag='emit')
+    cfg = ctx.pick('Viewport_MC_emit.cfg', 'Viewport_MC_emit_big.cfg')
+    if not ctx.quick():
+        # every page selection under a VIEW crashes on a tree with the set_page defect (known finding C30-set-page-assert) and costs a
+        # session restart: there the thorough tier replays the reduced graph too (4 264 instead of 57 456 transitions)
+        probe = gfx.GSess('ega64k')
+        probe.ex('SCREEN 7:VIEW (10,10)-(100,100)')
+        crashed = probe.ex('SCREEN 7,,1,1')[0] == 'internal'
+        probe.close()
+        if crashed:
+            cfg = 'Viewport_MC_emit.cfg'
+            ctx.cov['replay_graph_reduced_because_page_selection_under_view_crashes'] = True
+    r = ctx.tlc('Viewport_MC', cfg, workers=1, tag='emit')
     if not r['ok']:
         raise core.MachineryError('emit run failed: %s' % r['error'])
     trans = graph.parse_transitions(r['out'])
@@ -517,7 +528,7 @@ def run(ctx):
     nreplay = len(events)
     tags = ['ega64k/replay'] * nreplay
     # 3. code -> spec
-    per_mode = ctx.pick(110, 800)
+    per_mode = ctx.pick(90, 800)
     traces = 0
     for adapter, kw, modes in gfx.ADAPTERS:
         ru = Runner(ctx, adapter, events)
